@@ -239,11 +239,23 @@ def unit_discr(method, outk):
             shape = sym_shape(st, 'n', 2)
             tsp = mk_space(I, st, 'T', 'float64', shape, made)
             dsp = ip.Obj(I.get_class(DS + 'DiscretizedSpace'))
-            part = ip.Obj(I.get_class('odl.discr.partition:RectPartition'))
+            class PartTok(object):
+                def __init__(self, tag):
+                    self.tag = tag
+
+                def pv_getattr(self, I_, fr_, name):
+                    if name == 'append':
+                        return ip.Builtin('append', lambda I2, fr2, a, k: PartTok(('append', self.tag, getattr(a[0], 'tag', a[0]))))
+                    if name == 'ndim':
+                        return 2
+                    raise Unsupported('partition.%s' % name)
+            part = ip.Obj(I.get_class('odl.discr.partition:RectPartition')) if method != 'outer' else PartTok('P')
             grid = ip.Obj(I.get_class('odl.discr.grid:RectGrid'))
             grid.fields['_RectGrid__coord_vectors'] = tuple(npm.PArr(npm.Buf(core.VVar('cv%d' % i, 'real'), npm.DT('float64'), (shape[i],), True, True, name='cv%d' % i)) for i in range(2))
-            part.fields['_RectPartition__grid'] = grid
-            part.partial = grid.partial = True
+            if method != 'outer':
+                part.fields['_RectPartition__grid'] = grid
+                part.partial = True
+            grid.partial = True
             dsp.fields.update({'_DiscretizedSpace__tspace': tsp, '_DiscretizedSpace__partition': part, '_TensorSpace__shape': shape, '_TensorSpace__dtype': npm.DT('float64'),
                                '_DiscretizedSpace__axis_labels': ('$x$', '$y$')})
             dsp.partial = True
@@ -257,7 +269,9 @@ def unit_discr(method, outk):
             x, y = delem(tx), delem(ty)
             nout = 2 if method == '__call__2' else 1
             m = '__call__' if method.startswith('__call__') else method
-            res_t = [mk_elem(I, mk_space(I, st, 'R%d' % j, 'float64', shape, made), AbsArr('rt%d' % j, 'float64', shape, log)) for j in range(nout)]
+            rdt = 'complex128' if method == 'outer' else 'float64'          # outer: a result dtype different from the first operand's (e.g. real x complex)
+            rshape = shape + shape if method == 'outer' else shape
+            res_t = [mk_elem(I, mk_space(I, st, 'R%d' % j, rdt, rshape, made), AbsArr('rt%d' % j, rdt, rshape, log)) for j in range(nout)]
 
             def tensor_ufunc(I_, fr_, self, ufunc, meth, *inputs, **kw):
                 calls.append({'self': self, 'ufunc': ufunc, 'method': meth, 'inputs': inputs, 'kwargs': dict(kw)})
@@ -281,7 +295,9 @@ def unit_discr(method, outk):
                 return e
             st.cuts[DS + 'DiscretizedSpace.element'] = delement
             uf = AbsUfunc('absfunc', 2, nout, log, 'float64', lambda *a: shape)
-            inputs = {'__call__': [x, y], 'accumulate': [x], 'at': [x, (0, 1), 2.5]}[m]
+            inputs = {'__call__': [x, y], 'accumulate': [x], 'at': [x, (0, 1), 2.5], 'outer': [x, y]}[m]
+            if m == 'outer':
+                st.cuts[NT + 'NumpyTensorSpace.__init__'] = ctor_cut(made)
             kw = {'axis': 0} if m == 'accumulate' else {}
             outs = []
             if outk != 'none' and m != 'at':
@@ -298,7 +314,7 @@ def unit_discr(method, outk):
                 ret = I.call(I._getattr(x, '__array_ufunc__', fr), [uf, m] + inputs, kw, fr)
             except ip.PyRaise as e:
                 return ('raise', e.exc)
-            return ('ok', dict(ret=ret, calls=calls, uf=uf, inputs=inputs, outs=outs, user_kw=user_kw, res_t=res_t, dsp=dsp, part=part, m=m, nout=nout, dmade=dmade))
+            return ('ok', dict(ret=ret, calls=calls, uf=uf, inputs=inputs, outs=outs, user_kw=user_kw, res_t=res_t, dsp=dsp, part=part, m=m, nout=nout, dmade=dmade, fr=fr))
         info = {'method': method, 'out': outk}
         for st, (status, r) in ctx.explore(path):
             if status == 'raise':
@@ -334,10 +350,26 @@ def unit_discr(method, outk):
                         continue
                     ctx.prove(st, 'discr: result %d wraps the tensor result' % j, el.fields['_DiscretizedSpaceElement__tensor'] is r['res_t'][j], info)
                     nsp = el.fields['_LinearSpaceElement__space']
+                    if m == 'outer':
+                        ts = nsp.fields['_DiscretizedSpace__tspace']
+                        rsp = r['res_t'][j].fields['_LinearSpaceElement__space']
+                        ctx.prove(st, 'discr outer: partition of the result is partition(x).append(partition(y))', getattr(nsp.fields['_DiscretizedSpace__partition'], 'tag', None) == ('append', 'P', 'P'), info)
+                        ctx.prove(st, 'discr outer: tensor space of the result has the SHAPE and DTYPE of the NumPy result', tuple(ts.fields['_TensorSpace__shape']) == tuple(rsp.fields['_TensorSpace__shape'])
+                                  and ts.fields['_TensorSpace__dtype'] == rsp.fields['_TensorSpace__dtype'], dict(info, got=str(ts.fields['_TensorSpace__dtype']), want=str(rsp.fields['_TensorSpace__dtype'])))
+                        kw_ = ts.fields.get('ctor_kwargs')
+                        if kw_ is not None:
+                            w1 = I._getattr(r['dsp'].fields['_DiscretizedSpace__tspace'].fields['_NumpyTensorSpace__weighting'], 'const', fr_of(r))
+                            ctx.prove(st, 'discr outer: constant weightings multiply, exponent of the tensor result', core.sc_eq(kw_.get('weighting'), w1 * w1)
+                                      and core.sc_eq(kw_.get('exponent'), I._getattr(rsp.fields['_NumpyTensorSpace__weighting'], 'exponent', fr_of(r))), info)
+                        continue
                     ctx.prove(st, 'discr: result %d space: same partition, tensor space of the tensor result, same axis labels' % j,
                               nsp.fields['_DiscretizedSpace__partition'] is r['part'] and nsp.fields['_DiscretizedSpace__tspace'] is r['res_t'][j].fields['_LinearSpaceElement__space']
                               and nsp.fields.get('ctor_kwargs', {}).get('axis_labels') == ('$x$', '$y$'), info)
     return Unit('dispatch/discr/%s/out=%s' % (method, outk), run, funcs=[DS + 'DiscretizedSpaceElement.__array_ufunc__'], config={'method': method, 'out': outk})
+
+
+def fr_of(r):
+    return r['fr']
 
 
 def unit_errors():
@@ -455,7 +487,7 @@ def units(tier, seed):
                     if method == 'at' and (outk != 'none' or dtype_kw):
                         continue
                     us.append(unit_dispatch(method, outk, reskind, dtype_kw))
-    for method in ('__call__', '__call__2', 'accumulate', 'at'):
+    for method in ('__call__', '__call__2', 'accumulate', 'at', 'outer'):
         for outk in (('none',) if method == 'at' else ('none', 'element', 'tensor', 'ndarray')):
             us.append(unit_discr(method, outk))
     us.append(unit_errors())
